@@ -17,14 +17,14 @@ import (
 )
 
 func TestVerif_C06_Schedules(t *testing.T) {
-	rec := verifx.NewRecorder("C06", "schedules", "a request that generates a leased secret (plain, by a non-orphan batch child, or in a child namespace) or a token (expiring child, periodic, root-policy child that never expires) runs concurrently with one of: sys/leases/revoke-prefix of the mount's leases, sys/leases/revoke-force, revocation of the requesting token, a second lease-generating request with the same token; the harness interleaves the two requests at storage-operation granularity (stay-or-switch random walk); oracle once both have returned (and the expiration queue has drained): a secret handed out has its lease record and token index entry or has been revoked at its backend; no token index entry names a lease without record, no lease record lacks its index entry, every secret the backend generated is covered by a lease or revoked there, no usable token lacks a lease; non-trivial = a switch between the two unfinished requests")
+	rec := verifx.NewRecorder("C06", "schedules", "a request that generates a leased secret (plain, by a non-orphan batch child, or in a child namespace) or a token runs concurrently with one of: sys/leases/revoke-prefix of the mount's leases, sys/leases/revoke-force, revocation of the requesting token, a second lease-generating request with the same token; the harness interleaves the two requests at storage-operation granularity (stay-or-switch random walk); oracle once both have returned (and the expiration queue has drained): a secret handed out has its lease record and token index entry or has been revoked at its backend; no token index entry names a lease without record, no lease record lacks its index entry, every secret the backend generated is covered by a lease or revoked there, no usable token lacks a lease; non-trivial = a switch between the two unfinished requests")
 	defer rec.Flush()
 	rapid.Check(t, func(rt *rapid.T) {
 		defer recoverWedged(rec)
 		w := newC06World(t, rapid.Bool().Draw(rt, "transactionalStorage"))
 		defer func() { w.tc.shutdown() }()
 		tc := w.tc
-		kindA := []string{"secret", "secret", "secret-batch-child", "secret-in-namespace", "create", "secret", "create-root-nonexpiring", "create-periodic"}[fairIndex(rt, "request", 8)]
+		kindA := []string{"secret", "secret", "secret-batch-child", "secret-in-namespace", "create"}[fairIndex(rt, "request", 5)]
 		kindB := []string{"revoke-prefix", "revoke-prefix", "revoke-force", "revoke-requesting-token", "second-secret"}[fairIndex(rt, "other", 5)]
 		// some leases already exist under the prefix
 		for i, n := 0, fairIndex(rt, "existingLeases", 3); i < n; i++ {
